@@ -485,7 +485,37 @@ def r7_responsibilities_agree(ctx):
         ctx.unknown("C04.R7", sites[0][0], sites[0][1], f"all sites agree on {ref}, which is not the confirmed form {CONFIRMED}", construct="common form of the responsibilities")
 
 
+def r8_responsibility_weighted_averages(ctx):
+    """Mixture models: the cluster-level updates are responsibility-weighted averages  sum_i r_ik x_i / sum_i r_ik  - the denominator is the
+    plain sum of the responsibilities the numerator was weighted with (a denominator with something added, floored or clipped gives another
+    number for a sparsely populated cluster)."""
+    import re as _re
+    from ..astq import canon_lines
+    ctx.rule("C04.R8", "mixture updates: numerator and denominator of every responsibility-weighted average use the same responsibilities, unaltered", 3)
+    M = "leaspy.models.utilities"
+    for name in ("compute_ind_param_mean_from_suff_stats_mixture", "compute_ind_param_std_from_suff_stats_mixture", "compute_ind_param_std_from_suff_stats_mixture_burn_in"):
+        f = ctx.ix.try_func(M, name)
+        if f is None:
+            continue
+        L = canon_lines(f.node, False, True)
+        rets = [ln for ln in L if ln.startswith("return ")]
+        ok = False
+        if len(rets) == 1:
+            m = _re.fullmatch(r"return (?P<num>%\d+|\((?P<r1>%\d+) \* %\d+\))\.sum\(dim=0\) / (?P<den>%\d+)\.sum\(dim=0\)", rets[0])
+            if m:
+                den = m.group("den")
+                # the responsibilities: a local defined once as the softmax
+                soft = [ln for ln in L if ln.startswith(den + " = ") and "Softmax(" in ln]
+                weighted = m.group("r1") == den or any(ln.startswith(m.group("num") + " = ") and _re.search(r"(^|[ (])" + _re.escape(den) + r"($|[ .)*])", ln.split(" = ", 1)[1]) for ln in L)
+                ok = bool(soft) and weighted
+        text = rets[0] if rets else ""
+        ctx.form("C04.R8", f, f.node, text, {text} if ok else set(), [".sum(dim=0) / "], f"{name}: sum(r x) / sum(r) with the same responsibilities r",
+                 f"{name}: the update is no longer the responsibility-weighted average sum(r x) / sum(r)",
+                 forbidden=[r"/ \([^()]*\+", r"finfo", r"\beps\b", r"clamp", r"1e-\d", r"\.max\(", r"maximum\("], construct=f"weighted average in {name}")
+
+
 def rules(ctx):
+    r8_responsibility_weighted_averages(ctx)
     r7_responsibilities_agree(ctx)
     r1_two_phase(ctx)
     r2_tables(ctx)
